@@ -61,6 +61,11 @@ def describe(ctx, q, ev):
                 v = arg_role(ev, role)
                 break
         pc = path_class(ctx, q, v) if v is not None else '-'
+        # error discipline does not depend on how the key-named leaf was obtained (that is C16's business)
+        if pc.startswith('Base/Leaf?'):
+            pc = 'Base/Key'
+        elif pc.startswith('Handle(Base/Leaf?'):
+            pc = 'Handle(Base/Key)'
         return '%s(%s)' % (ev['path'], pc)
     if ev['k'] == 'traitcall':
         return 'write/read-side %s' % ev['method']
